@@ -14,6 +14,7 @@ import (
 	"pgregory.net/rapid"
 
 	"verif/harness/core"
+	"verif/harness/mock"
 )
 
 // C17 — transport wrappers preserve the byte stream for every buffering configuration.
@@ -33,6 +34,15 @@ type C17Case struct {
 	EOFData bool `json:"eofdata,omitempty"`
 	// Duplex: the read operations run on a second goroutine while the first one writes (a transport is used full duplex)
 	Duplex bool `json:"duplex,omitempty"`
+	// Fault: the K-th write on the connection takes only Take bytes and fails (a write deadline that expired, a
+	// transient error); the connection works again afterwards
+	Fault *C17Fault `json:"fault,omitempty"`
+}
+
+type C17Fault struct {
+	K    int    `json:"k"`
+	Take int    `json:"take"`
+	Kind string `json:"kind"` // timeout | plain
 }
 
 // memConn is an in-memory net.Conn: it records what is written and serves
@@ -45,6 +55,8 @@ type memConn struct {
 	writes   int
 	eofData  bool
 	slow     bool
+	fault    *C17Fault
+	fired    bool
 }
 
 func (m *memConn) Read(p []byte) (int, error) {
@@ -77,6 +89,15 @@ func (m *memConn) Write(p []byte) (int, error) {
 		return 0, net.ErrClosed
 	}
 	m.writes++
+	if m.fault != nil && m.writes == m.fault.K {
+		m.fired = true
+		n := imin(m.fault.Take, len(p))
+		m.got = append(m.got, p[:n]...)
+		if m.fault.Kind == "timeout" {
+			return n, &mock.NetErr{Msg: "verif: i/o timeout", TO: true}
+		}
+		return n, fmt.Errorf("verif: transient write failure")
+	}
 	if m.slow {
 		// append in two steps with a pause, as a socket write copies into kernel buffers
 		h := len(p) / 2
@@ -138,7 +159,117 @@ func genC17(t *rapid.T) C17Case {
 	c.Drain = rapid.SampledFrom([]int{1, 3, 16, 64, 5000}).Draw(t, "drain")
 	c.EOFData = rapid.IntRange(0, 3).Draw(t, "eofdata") == 1
 	c.Duplex = rapid.IntRange(0, 5).Draw(t, "duplex") == 2
+	if !c.Duplex && rapid.IntRange(0, 3).Draw(t, "fault") == 0 {
+		c.Fault = &C17Fault{K: rapid.IntRange(1, 6).Draw(t, "fk"), Take: rapid.IntRange(0, w+3).Draw(t, "ftake"), Kind: rapid.SampledFrom([]string{"timeout", "timeout", "plain"}).Draw(t, "fkind")}
+	}
 	return c
+}
+
+// runC17Fault: one write on the connection fails after taking part of its bytes. Calls may fail from then on; but
+// whenever a Flush reports success, every Write/Writev that reported success is completely at the peer, in call
+// order; of a call that reported failure any prefix may be there.
+func runC17Fault(c C17Case, conn *memConn, tr transport.Transport, variant string, cls *core.ClassSet) (out core.Outcome) {
+	type seg struct {
+		b  []byte
+		ok bool
+	}
+	var segs []seg
+	seq := 0
+	mk := func(n int) []byte {
+		b := make([]byte, n)
+		for i := range b {
+			seq++
+			b[i] = byte(seq*31 + seq>>8)
+		}
+		return b
+	}
+	failed := false
+	judge := func(when string) *core.Violation {
+		pos := map[int]bool{0: true}
+		for _, sg := range segs {
+			next := map[int]bool{}
+			for p := range pos {
+				if sg.ok {
+					if p+len(sg.b) <= len(conn.got) && bytes.Equal(conn.got[p:p+len(sg.b)], sg.b) {
+						next[p+len(sg.b)] = true
+					}
+					continue
+				}
+				for l := 0; l <= len(sg.b) && p+l <= len(conn.got); l++ {
+					if l > 0 && conn.got[p+l-1] != sg.b[l-1] {
+						break
+					}
+					next[p+l] = true
+				}
+			}
+			pos = next
+		}
+		if !pos[len(conn.got)] {
+			okBytes := 0
+			for _, sg := range segs {
+				if sg.ok {
+					okBytes += len(sg.b)
+				}
+			}
+			return core.Viol("C17/flush-after-failure-lost-bytes:"+variant, "%s reported success after an earlier connection write had failed, but the peer's %d bytes are not the successfully written calls (%d bytes) in order with at most a prefix of each failed call in between: bytes of a call that reported success are missing or altered", when, len(conn.got), okBytes)
+		}
+		return nil
+	}
+	for i, op := range c.Ops {
+		switch op.Op {
+		case "write":
+			p := mk(op.Sizes[0])
+			n, err := tr.Write(p)
+			segs = append(segs, seg{b: p, ok: err == nil && n == len(p)})
+			if err != nil {
+				failed = true
+			}
+		case "writev":
+			var bs net.Buffers
+			var all []byte
+			for _, n := range op.Sizes {
+				b := mk(n)
+				bs = append(bs, b)
+				all = append(all, b...)
+			}
+			n, err := tr.Writev(bs)
+			segs = append(segs, seg{b: all, ok: err == nil && n == int64(len(all))})
+			if err != nil {
+				failed = true
+			}
+		case "flush":
+			err := tr.Flush()
+			if err != nil {
+				failed = true
+				continue
+			}
+			if v := judge(fmt.Sprintf("op %d: Flush", i)); v != nil {
+				out.Violation = v
+				return
+			}
+			if failed {
+				cls.Add("fault:flush-succeeded-after-a-failure")
+				out.NonTrivial = true
+			}
+		}
+	}
+	if err := tr.Flush(); err == nil {
+		if v := judge("final Flush"); v != nil {
+			out.Violation = v
+			return
+		}
+		if failed {
+			cls.Add("fault:flush-succeeded-after-a-failure")
+		}
+	}
+	if conn.fired {
+		cls.Add("fault:fired:%s", c.Fault.Kind)
+		out.NonTrivial = true
+		if failed {
+			cls.Add("fault:reported-to-caller")
+		}
+	}
+	return
 }
 
 func runC17(c C17Case) (out core.Outcome) {
@@ -171,6 +302,10 @@ func runC17(c C17Case) (out core.Outcome) {
 	tr := transport.NewTransport(conn, c.RSize, c.WSize)
 	if c.Duplex {
 		return runC17Duplex(c, conn, tr, peer, variant, cls)
+	}
+	if c.Fault != nil {
+		conn.fault = c.Fault
+		return runC17Fault(c, conn, tr, variant, cls)
 	}
 	var written, read []byte
 	seq := 0
